@@ -663,6 +663,10 @@ func (c *Conn) cancel(ctx *Ctx) {
 // cancelStream resets a stream that cannot be finished. The caller has already
 // taken it off the queue.
 func (c *Conn) cancelStream(id uint32, code ErrorCode) {
+	c.writeOut(rstStreamFrame(id, code))
+}
+
+func rstStreamFrame(id uint32, code ErrorCode) *FrameHeader {
 	h := AcquireFrameHeader()
 	h.SetStream(id)
 
@@ -671,7 +675,7 @@ func (c *Conn) cancelStream(id uint32, code ErrorCode) {
 
 	h.SetBody(fr)
 
-	c.writeOut(h)
+	return h
 }
 
 type WriteError struct {
@@ -1306,9 +1310,15 @@ func (c *Conn) sendPending(id uint32) error {
 				// The body cannot be finished, and the peer is part way
 				// through one it would otherwise wait for.
 				c.deletePending(id)
-				c.cancelStream(id, InternalError)
 
-				return nil
+				// Written, not queued: this is the write loop, and waiting for
+				// room in the queue it empties would be waiting for itself.
+				h := rstStreamFrame(id, InternalError)
+				err = c.writeFrame(h)
+
+				ReleaseFrameHeader(h)
+
+				return err
 			}
 
 			continue
